@@ -21,7 +21,7 @@ import unicodedata
 from abc import abstractmethod
 from functools import reduce
 from itertools import chain, groupby
-from numbers import Rational
+from numbers import Integral, Rational
 from operator import mul
 from typing import (
     Any, Callable, Generator, Iterable, Iterator, List, Optional, Sequence,
@@ -174,7 +174,7 @@ class Term(ItemSequenceT[T]):
                 return tuple(_filter_items(((elem2, exp2), (elem1, exp1))))
             # least relevant case: 2 numeric elements
             if isinstance(elem1, Rational) and isinstance(elem2, Rational):
-                num: Rational = elem1 ** exp1 * elem2 ** exp2
+                num: Rational = _pow(elem1, exp1) * _pow(elem2, exp2)
                 if num != 1:
                     return (num, 1),
         # more than 2 items or number of items unknown:
@@ -227,7 +227,7 @@ class Term(ItemSequenceT[T]):
             else:  # numerical elements
                 group_it = cast(Iterator[Tuple[int, Tuple[Rational, int]]],
                                 group_it)
-                num_elem = reduce(mul, (elem ** exp
+                num_elem = reduce(mul, (_pow(elem, exp)
                                         for _, (elem, exp) in group_it),
                                   num_elem)
         if num_elem != 1:
@@ -270,7 +270,7 @@ class Term(ItemSequenceT[T]):
             pass
         else:
             if isinstance(elem, Rational):
-                return cast(Rational, elem ** exp)
+                return _pow(elem, exp)
         return None
 
     def split(self, dflt_num: Rational = ONE) \
@@ -408,6 +408,13 @@ class Term(ItemSequenceT[T]):
 
 
 # helper functions
+
+def _pow(elem: Rational, exp: int) -> Rational:
+    # int ** negative int would give a float => keep the result exact
+    if exp < 0 and isinstance(elem, Integral):
+        return cast(Rational, ONE / elem ** -exp)
+    return cast(Rational, elem ** exp)
+
 
 def _filter_items(items: ItemIterableT[T]) \
         -> Generator[ItemT[T], None, None]:
